@@ -140,7 +140,8 @@ def audit(ctx, module, names):
   """#print axioms for every theorem; returns (discharged names, problems)"""
   path = os.path.join(ctx.work, 'Audit.lean')
   with open(path, 'w') as f:
-    f.write(f'import {module}\n')
+    for mod in ([module] if isinstance(module, str) else module):
+      f.write(f'import {mod}\n')
     for nm, _, _ in names:
       f.write(f'#print axioms {nm}\n')
   p = subprocess.run(['lake', 'env', 'lean', path], cwd=LEAN, capture_output=True, text=True)
@@ -172,22 +173,32 @@ def grep_forbidden(files):
 
 
 def lean_stage(ctx, extra_targets=()):
-  """build + audit; returns dict(ok, obligations, discharged, failed, problems, log)"""
-  module = f'Brax.Props.{ctx.prop}'
-  props_rel = f'Brax/Props/{ctx.prop}.lean'
-  props_path = os.path.join(LEAN, props_rel)
-  names = theorem_names(props_path)
+  """build + audit; returns dict(ok, obligations, discharged, failed, problems, log).
+  The property theorems of `Cxx` live in `Brax/Props/Cxx.lean` and, when an import cycle forces a split, in further
+  files `Brax/Props/Cxx<Suffix>.lean` (e.g. `C08Forest.lean`); all of them are built and audited."""
+  import glob as _glob
+  rels = sorted(os.path.relpath(f, LEAN) for f in _glob.glob(os.path.join(LEAN, f'Brax/Props/{ctx.prop}*.lean')))
+  main_rel = f'Brax/Props/{ctx.prop}.lean'
+  rels = [main_rel] + [r for r in rels if r != main_rel]
+  modules = [r[:-5].replace('/', '.') for r in rels]
+  per_file = [(rel, theorem_names(os.path.join(LEAN, rel))) for rel in rels]
+  names = [t for _, ns in per_file for t in ns]
   log_path = os.path.join(ctx.work, 'lake.log')
-  ok, log = lake_build([module] + list(extra_targets), log_path, clean=False)
+  ok, log = lake_build(modules + list(extra_targets), log_path, clean=False)
   res = dict(ok=ok, obligations=[n for n, _, _ in names], discharged=[], failed=[], problems=[],
              log=log[-6000:])
   if not ok:
-    res['failed'] = failed_theorems(log, props_rel, names) or ['*']
+    failed = []
+    for rel, ns in per_file:
+      failed += failed_theorems(log, rel, ns)
+    res['failed'] = failed or ['*']
     # theorems that did compile cannot be told apart cheaply when the file fails: count none
     return res
-  files = lean_imports(props_path)
+  files = {}
+  for rel in rels:
+    files.update(lean_imports(os.path.join(LEAN, rel)))
   hits = grep_forbidden(files)
-  good, problems, out = audit(ctx, module, names)
+  good, problems, out = audit(ctx, modules, names)
   res['discharged'] = good
   res['problems'] = problems + [f'forbidden token {h}' for h in hits]
   res['ok'] = not res['problems']
